@@ -496,6 +496,50 @@ def macros():
     return json.load(open(os.path.join(d, 'macros.json')))
 
 
+def layout():
+    """layout of the public structs as the headers of the tree declare them (offset, size, kind of every field), from a compiled probe:
+    the ctypes binding of xl.py is built from it, so that a field that changes type is read as what it now is"""
+    structs = {
+        'xrl_error': ('xrl_error', ['code', 'message']),
+        'compoundData': ('struct compoundData', ['nElements', 'nAtomsAll', 'Elements', 'massFractions', 'nAtoms', 'molarMass']),
+        'compoundDataNIST': ('struct compoundDataNIST', ['name', 'nElements', 'Elements', 'massFractions', 'density']),
+        'radioNuclideData': ('struct radioNuclideData', ['name', 'Z', 'A', 'N', 'Z_xray', 'nXrays', 'XrayLines', 'XrayIntensities', 'nGammas', 'GammaEnergies', 'GammaIntensities']),
+        'Crystal_Atom': ('Crystal_Atom', ['Zatom', 'fraction', 'x', 'y', 'z']),
+        'Crystal_Struct': ('Crystal_Struct', ['name', 'a', 'b', 'c', 'alpha', 'beta', 'gamma', 'volume', 'n_atom', 'atom']),
+        'Crystal_Array': ('Crystal_Array', ['n_crystal', 'n_alloc', 'crystal']),
+    }
+
+    def mk(d):
+        _write_config(d)
+        src = ['#include <stdio.h>', '#include <stddef.h>', '#include "xraylib.h"',
+               '#define KIND(x) _Generic((x), float: "f", double: "f", long double: "f", signed char: "i", short: "i", int: "i", long: "i", long long: "i", '
+               'unsigned char: "u", unsigned short: "u", unsigned: "u", unsigned long: "u", unsigned long long: "u", char: "i", default: "p")',
+               '/* the kind of what a pointer field points to */',
+               '#define PKIND(x) _Generic((x), float *: "f4", double *: "f8", int *: "i4", unsigned *: "u4", short *: "i2", long *: "i8", char *: "s", const char *: "s", default: "o")',
+               'int main(void){']
+        for key, (ctype, fields) in structs.items():
+            src.append('{ %s t; printf("%s %%zu\\n", sizeof t);' % (ctype, key))
+            for f in fields:
+                src.append('  printf("%s.%s %%zu %%zu %%s %%s\\n", offsetof(%s, %s), sizeof t.%s, KIND(t.%s), PKIND(t.%s));' % (key, f, ctype, f, f, f, f))
+            src.append('}')
+        src.append('return 0;}')
+        c = os.path.join(d, 'layout.c')
+        open(c, 'w').write('\n'.join(src))
+        _run(['gcc', '-w'] + CORE + _incs(d) + [c, '-o', os.path.join(d, 'layout')])
+        out = _run([os.path.join(d, 'layout')])
+        lay = {}
+        for l in out.split('\n'):
+            t = l.split()
+            if len(t) == 2:
+                lay[t[0]] = dict(size=int(t[1]), fields=[])
+            elif len(t) == 5:
+                k, f = t[0].split('.')
+                lay[k]['fields'].append(dict(name=f, offset=int(t[1]), size=int(t[2]), kind=t[3], pkind=t[4]))
+        json.dump(lay, open(os.path.join(d, 'layout.json'), 'w'), indent=1)
+    d = _target('layout', mk)
+    return json.load(open(os.path.join(d, 'layout.json')))
+
+
 def prebuild(configs=CONFIGS, flavours=('plain', 'asan', 'tsan')):
     """build the common bundles in parallel (used by `xv setup`)"""
     gen()
